@@ -45,3 +45,47 @@ Example ex2_shape :
   option_map (fun sp => map S.bs_seqs (S.sh_blocks (S.erase_plan sp))) ex2_stored = Some [[[2; 0]]; [[2; 0]]] /\
   option_map (fun sp => S.erase_plan sp) ex2_stored = Some (shape_norm (S.erase_plan ValidateExamples.ex_plan)).
 Proof. vm_compute. repeat split; reflexivity. Qed.
+
+(* ---- item 3: the stored form of coq/validate's example (21 objects, ids 8..28) is in coq/store's domain; the two
+        projects list its ids in different orders (a genuine permutation); a history of three Submits - accepted,
+        rejected (duplicate key), accepted - leaves two stored plans whose ids are disjoint stretches of the supply *)
+From Coercion.Store Require Tree.
+From Coercion.Glue Require Import GlueStoreTree GlueStore GlueStoreHistory.
+
+Definition ex3_tp : option T.spln := T.obind ex2_stored T.of_plan.
+
+Example ex3_ids :
+  option_map (fun sp => map u_ix (W.ids_plan sp)) ex2_stored
+    = Some [8; 9; 10; 11; 12; 13; 14; 15; 16; 17; 18; 19; 20; 21; 22; 23; 24; 25; 26; 27; 28]%N /\
+  option_map (fun tp => map u_ix (T.pln_ids tp)) ex3_tp
+    = Some [8; 9; 10; 11; 12; 14; 15; 19; 20; 13; 16; 17; 18; 22; 23; 27; 28; 21; 24; 25; 26]%N /\
+  option_map (fun tp => length (T.pln_actions tp)) ex3_tp = Some 10.
+Proof. vm_compute. repeat split; reflexivity. Qed.
+
+Definition ex3_calls : list call :=
+  [(1700000000000000000%Z, false, Some ValidateExamples.ex_plan);
+   (1700000000000000001%Z, false, Some (ValidateExamples.ex_plan_with (ValidateExamples.k7 4)));
+   (1700000000000000002%Z, false, Some ValidateExamples.ex_plan)].
+Definition ex3_world := run_submits ValidateExamples.ex_supply (fun _ => true) ex3_calls (V.Build_world [] 7).
+
+Example ex3_history :
+  V.w_next ex3_world = 49 /\
+  option_map (map (fun tp => map u_ix (T.pln_ids tp))) (T.mapM T.of_plan (history ex3_world))
+  = Some [[8; 9; 10; 11; 12; 14; 15; 19; 20; 13; 16; 17; 18; 22; 23; 27; 28; 21; 24; 25; 26];
+          [29; 30; 31; 32; 33; 35; 36; 40; 41; 34; 37; 38; 39; 43; 44; 48; 49; 42; 45; 46; 47]]%N.
+Proof. vm_compute. split; reflexivity. Qed.
+
+(* the coherence premise is satisfiable by a registry that is not constant: it accepts exactly the
+   (plugin, request) pairs the example plan's actions carry, and nothing else *)
+Definition ex3_req_ok (pl : tok) (r : blob) : bool :=
+  existsb (fun a => N.eqb (t_ix (a_plugin a)) (t_ix pl) && N.eqb (bl_ix (a_req a)) (bl_ix r))
+          (plan_acts ValidateExamples.ex_plan).
+
+Example ex3_coherent :
+  reg_coherent ex3_req_ok ValidateExamples.ex_plan /\
+  length (plan_acts ValidateExamples.ex_plan) = 10 /\
+  ex3_req_ok (Build_tok false false 999) (Build_blob false true 0 999) = false.
+Proof.
+  split; [|split; vm_compute; reflexivity].
+  unfold reg_coherent. vm_compute plan_acts. repeat constructor; intros _; vm_compute; reflexivity.
+Qed.
